@@ -193,11 +193,16 @@ TRead ==
 TSilent == /\ Live /\ \E d \in Dirs : ReadHs(d) \/ ReadHdr(d) \/ ReadBody(d)
            /\ UNCHANGED <<l, off>> /\ KeepT
 
-\* the harness's verdict: complete iff the connection stayed up, and then
-\* everything written was read
+\* the harness's verdict.  A connection that is up at the end has completed
+\* its transfer (everything written was read); a transfer the harness found
+\* incomplete belongs to a connection that went down visibly.  (A connection
+\* may also complete its transfer and go down afterwards, before the harness
+\* takes stock - a stream break just before the end of the fault period that
+\* the keepalive turns into a closure: complete = 1 with the connection down
+\* is accepted; its reads were checked line by line while it was up.)
 TEnd == /\ Is("end") /\ Adv
-        /\ (Ev.complete = 1) = (up /\ Started)
-        /\ up => \A d \in Dirs : rd[d] = Written(d)
+        /\ (Ev.complete = 0) => ~(up /\ Started)
+        /\ (up /\ Started) => (Ev.complete = 1 /\ \A d \in Dirs : rd[d] = Written(d))
         /\ off' = TRUE /\ UNCHANGED vars /\ KeepT
 
 TraceNext == TReset \/ TStart \/ TForeign \/ TOff \/ TShutdown \/ TSkip \/ TWriteCall \/ TKitWrite \/ TWriteRet
